@@ -237,6 +237,92 @@ Definition unsubscribe (k : client) (s : state) : state :=
                                                 match t_chans tp with [] => true | _ => false end)) |>
   end.
 
+(* ---- channel-local transformers (each recomputes what it needs from the channel it is
+   applied to, so that per-channel invariants are proved once, channel by channel) ---- *)
+Definition ch_deliver (k id : N) (deadline now : Z) (ch : chan) : chan :=
+  match remove_msg id (c_queue ch) with
+  | Some (m, q') => ch <| c_queue := q' |> <| c_ifl ::= cons (mkIfl (bump m) k deadline now) |>
+  | None => ch
+  end.
+
+Definition ch_fin (k id : N) (ch : chan) : chan :=
+  match remove_ifl id (c_ifl ch) with
+  | Some (e, l') => if i_cid e =? k then ch <| c_ifl := l' |> <| c_fin ::= cons id |> else ch
+  | None => ch
+  end.
+
+Definition ch_req (cfg : config) (k id : N) (delay now : Z) (ch : chan) : chan :=
+  match remove_ifl id (c_ifl ch) with
+  | Some (e, l') =>
+      if i_cid e =? k then
+        let ch := ch <| c_ifl := l' |> <| c_requeue ::= N.succ |> in
+        if (delay =? 0)%Z then chan_put cfg (i_msg e) ch
+        else ch <| c_dfr ::= cons (mkDfr (i_msg e) (now + delay)%Z) |>
+      else ch
+  | None => ch
+  end.
+
+Definition touch_deadline (cfg : config) (now timeout dts : Z) : Z :=
+  let nd := (now + timeout)%Z in
+  if (nd - dts >=? max_msg_timeout cfg)%Z then (dts + max_msg_timeout cfg)%Z else nd.
+
+Definition ch_touch (cfg : config) (k id : N) (now timeout : Z) (ch : chan) : chan :=
+  match remove_ifl id (c_ifl ch) with
+  | Some (e, l') =>
+      if i_cid e =? k
+      then ch <| c_ifl := mkIfl (i_msg e) k (touch_deadline cfg now timeout (i_dts e)) (i_dts e) :: l' |>
+      else ch
+  | None => ch
+  end.
+
+Definition ch_empty (ch : chan) : chan :=
+  let ids := map m_id (c_queue ch) ++ map (fun e => m_id (i_msg e)) (c_ifl ch)
+             ++ map (fun e => m_id (d_msg e)) (c_dfr ch) in
+  ch <| c_queue := [] |> <| c_ifl := [] |> <| c_dfr := [] |> <| c_emptied ::= app ids |>.
+
+Definition ch_scan_ifl (cfg : config) (now : Z) (ch : chan) : chan :=
+  let '(ex, keep) := expired_ifl now (c_ifl ch) in
+  fold_left (fun ch e => chan_put cfg (i_msg e) (ch <| c_timeout ::= N.succ |>)) ex (ch <| c_ifl := keep |>).
+
+Definition ch_scan_dfr (cfg : config) (now : Z) (ch : chan) : chan :=
+  let '(ex, keep) := expired_dfr now (c_dfr ch) in
+  fold_left (fun ch e => chan_put cfg (d_msg e) ch) ex (ch <| c_dfr := keep |>).
+
+Definition holds (ch : chan) (k id : N) : bool :=
+  match remove_ifl id (c_ifl ch) with
+  | Some (e, _) => i_cid e =? k
+  | None => false
+  end.
+
+Definition deliverable (s : state) (kl : client) (ch : chan) (id : N) : bool :=
+  k_alive kl && negb (c_paused ch) && (0 <? k_rdy kl)%Z && (k_ifl kl <? k_rdy kl)%Z
+  && existsb (N.eqb (k_id kl)) (c_clients ch)
+  && match remove_msg id (c_queue ch) with Some _ => true | None => false end.
+
+Definition att_after_delivery (ch : chan) (id : N) : N :=
+  match remove_msg id (c_queue ch) with Some (m, _) => m_att (bump m) | None => 0 end.
+
+Definition drop_empty_eph_topic (t : N) (s : state) : state :=
+  s <| s_topics ::= filter (fun tp => negb ((t_id tp =? t) && t_eph tp &&
+                                            match t_chans tp with [] => true | _ => false end)) |>.
+
+(* the subscription of a consumer that may answer (FIN/REQ/TOUCH are accepted in states
+   subscribed and closing) *)
+Definition answering (s : state) (k : N) : option (client * N * N * chan) + bool :=
+  match find_client s k with
+  | Some kl =>
+      if (k_state kl =? st_subscribed) || (k_state kl =? st_closing) then
+        match k_sub kl with
+        | Some (t, c) => match get_chan s t c with
+                         | Some ch => inl (Some (kl, t, c, ch))
+                         | None => inl None
+                         end
+        | None => inl None
+        end
+      else inr false
+  | None => inr false
+  end.
+
 Definition step (cfg : config) (s : state) (o : op) : state * resp :=
   match o with
   | OCreateTopic t eph => (ensure_topic s t eph, ROk)
@@ -280,18 +366,11 @@ Definition step (cfg : config) (s : state) (o : op) : state * resp :=
           | Some (t, c) =>
               match get_chan s t c with
               | Some ch =>
-                  match remove_msg id (c_queue ch) with
-                  | Some (m, q') =>
-                      if k_alive kl && negb (c_paused ch) && (0 <? k_rdy kl)%Z && (k_ifl kl <? k_rdy kl)%Z
-                         && existsb (N.eqb k) (c_clients ch) then
-                        let m' := bump m in
-                        let s := upd_chan s t c (fun ch => ch <| c_queue := q' |>
-                                   <| c_ifl ::= cons (mkIfl m' k (now + k_timeout kl)%Z now) |>) in
-                        let s := upd_client s k (fun x => x <| k_ifl ::= Z.succ |> <| k_msgcount ::= N.succ |>) in
-                        (s, RDelivered (m_att m'))
-                      else (s, RNotEnabled)
-                  | None => (s, RNotEnabled)
-                  end
+                  if deliverable s kl ch id then
+                    let s' := upd_chan s t c (ch_deliver k id (now + k_timeout kl)%Z now) in
+                    let s' := upd_client s' k (fun x => x <| k_ifl ::= Z.succ |> <| k_msgcount ::= N.succ |>) in
+                    (s', RDelivered (att_after_delivery ch id))
+                  else (s, RNotEnabled)
               | None => (s, RNotEnabled)
               end
           | None => (s, RNotEnabled)
@@ -299,78 +378,32 @@ Definition step (cfg : config) (s : state) (o : op) : state * resp :=
       | None => (s, RNotEnabled)
       end
   | OFin k id =>
-      match find_client s k with
-      | Some kl =>
-          if (k_state kl =? st_subscribed) || (k_state kl =? st_closing) then
-            match k_sub kl with
-            | Some (t, c) =>
-                match get_chan s t c with
-                | Some ch =>
-                    match remove_ifl id (c_ifl ch) with
-                    | Some (e, l') =>
-                        if i_cid e =? k then
-                          let s := upd_chan s t c (fun ch => ch <| c_ifl := l' |> <| c_fin ::= cons id |>) in
-                          (upd_client s k (fun x => x <| k_ifl ::= Z.pred |> <| k_fincount ::= N.succ |>), ROk)
-                        else (s, RFailed)
-                    | None => (s, RFailed)
-                    end
-                | None => (s, RFailed)
-                end
-            | None => (s, RFailed)
-            end
-          else (s, RInvalid)
-      | None => (s, RInvalid)
+      match answering s k with
+      | inl (Some (kl, t, c, ch)) =>
+          if holds ch k id then
+            (upd_client (upd_chan s t c (ch_fin k id)) k
+                        (fun x => x <| k_ifl ::= Z.pred |> <| k_fincount ::= N.succ |>), ROk)
+          else (s, RFailed)
+      | inl None => (s, RFailed)
+      | inr _ => (s, RInvalid)
       end
   | OReq k id delay now =>
-      match find_client s k with
-      | Some kl =>
-          if (k_state kl =? st_subscribed) || (k_state kl =? st_closing) then
-            match k_sub kl with
-            | Some (t, c) =>
-                match get_chan s t c with
-                | Some ch =>
-                    match remove_ifl id (c_ifl ch) with
-                    | Some (e, l') =>
-                        if i_cid e =? k then
-                          let s := upd_chan s t c (fun ch =>
-                                     let ch := ch <| c_ifl := l' |> <| c_requeue ::= N.succ |> in
-                                     if (delay =? 0)%Z then chan_put cfg (i_msg e) ch
-                                     else ch <| c_dfr ::= cons (mkDfr (i_msg e) (now + delay)%Z) |>) in
-                          (upd_client s k (fun x => x <| k_ifl ::= Z.pred |> <| k_reqcount ::= N.succ |>), ROk)
-                        else (s, RFailed)
-                    | None => (s, RFailed)
-                    end
-                | None => (s, RFailed)
-                end
-            | None => (s, RFailed)
-            end
-          else (s, RInvalid)
-      | None => (s, RInvalid)
+      match answering s k with
+      | inl (Some (kl, t, c, ch)) =>
+          if holds ch k id then
+            (upd_client (upd_chan s t c (ch_req cfg k id delay now)) k
+                        (fun x => x <| k_ifl ::= Z.pred |> <| k_reqcount ::= N.succ |>), ROk)
+          else (s, RFailed)
+      | inl None => (s, RFailed)
+      | inr _ => (s, RInvalid)
       end
   | OTouch k id now =>
-      match find_client s k with
-      | Some kl =>
-          if (k_state kl =? st_subscribed) || (k_state kl =? st_closing) then
-            match k_sub kl with
-            | Some (t, c) =>
-                match get_chan s t c with
-                | Some ch =>
-                    match remove_ifl id (c_ifl ch) with
-                    | Some (e, l') =>
-                        if i_cid e =? k then
-                          let nd := (now + k_timeout kl)%Z in
-                          let nd := if (nd - i_dts e >=? max_msg_timeout cfg)%Z
-                                    then (i_dts e + max_msg_timeout cfg)%Z else nd in
-                          (upd_chan s t c (fun ch => ch <| c_ifl := mkIfl (i_msg e) k nd (i_dts e) :: l' |>), ROk)
-                        else (s, RFailed)
-                    | None => (s, RFailed)
-                    end
-                | None => (s, RFailed)
-                end
-            | None => (s, RFailed)
-            end
-          else (s, RInvalid)
-      | None => (s, RInvalid)
+      match answering s k with
+      | inl (Some (kl, t, c, ch)) =>
+          if holds ch k id then (upd_chan s t c (ch_touch cfg k id now (k_timeout kl)), ROk)
+          else (s, RFailed)
+      | inl None => (s, RFailed)
+      | inr _ => (s, RInvalid)
       end
   | OCls k =>
       match find_client s k with
@@ -398,10 +431,7 @@ Definition step (cfg : config) (s : state) (o : op) : state * resp :=
   | OEmptyChan t c =>
       match get_chan s t c with
       | Some ch =>
-          let ids := map m_id (c_queue ch) ++ map (fun e => m_id (i_msg e)) (c_ifl ch)
-                     ++ map (fun e => m_id (d_msg e)) (c_dfr ch) in
-          let s := upd_chan s t c (fun ch => ch <| c_queue := [] |> <| c_ifl := [] |> <| c_dfr := [] |>
-                                               <| c_emptied ::= app ids |>) in
+          let s := upd_chan s t c ch_empty in
           (s <| s_clients ::= map (fun k => if existsb (N.eqb (k_id k)) (c_clients ch)
                                             then k <| k_ifl := 0%Z |> else k) |>, ROk)
       | None => (s, RNotFound)
@@ -418,8 +448,7 @@ Definition step (cfg : config) (s : state) (o : op) : state * resp :=
           | Some ch =>
               let s := close_clients (c_clients ch) s in
               let s := upd_topic s t (fun tp => tp <| t_chans ::= filter (fun x => negb (c_id x =? c)) |>) in
-              (s <| s_topics ::= filter (fun tp => negb ((t_id tp =? t) && t_eph tp &&
-                                                         match t_chans tp with [] => true | _ => false end)) |>, ROk)
+              (drop_empty_eph_topic t s, ROk)
           | None => (s, RNotFound)
           end
       | None => (s, RNotFound)
@@ -434,25 +463,33 @@ Definition step (cfg : config) (s : state) (o : op) : state * resp :=
   | OScanInFlight t c now =>
       match get_chan s t c with
       | Some ch =>
-          let '(ex, keep) := expired_ifl now (c_ifl ch) in
-          let s := upd_chan s t c (fun ch =>
-                     fold_left (fun ch e => chan_put cfg (i_msg e) (ch <| c_timeout ::= N.succ |>)) ex
-                               (ch <| c_ifl := keep |>)) in
+          let ex := fst (expired_ifl now (c_ifl ch)) in
+          let s := upd_chan s t c (ch_scan_ifl cfg now) in
           (fold_left (fun s e => dec_ifl (c_clients ch) (i_cid e) s) ex s, ROk)
       | None => (s, RNotFound)
       end
   | OScanDeferred t c now =>
       match get_chan s t c with
-      | Some ch =>
-          let '(ex, keep) := expired_dfr now (c_dfr ch) in
-          (upd_chan s t c (fun ch =>
-             fold_left (fun ch e => chan_put cfg (d_msg e) ch) ex (ch <| c_dfr := keep |>)), ROk)
+      | Some _ => (upd_chan s t c (ch_scan_dfr cfg now), ROk)
       | None => (s, RNotFound)
       end
   end.
 
 Definition run (cfg : config) (s : state) (ops : list op) : state :=
   fold_left (fun s o => fst (step cfg s o)) ops s.
+
+(* restart: graceful Exit flushes queue ++ in-flight ++ deferred of every non-ephemeral
+   channel to its backend; ephemeral things vanish; consumers are gone; counters restart *)
+Definition restart_chan (ch : chan) : chan :=
+  mkChan (c_id ch) false (c_paused ch)
+         (c_queue ch ++ map i_msg (c_ifl ch) ++ map d_msg (c_dfr ch)) [] [] [] 0 0 0
+         (c_fin ch) (c_emptied ch) (c_lost ch).
+Definition restart_topic (tp : topic) : topic :=
+  mkTopic (t_id tp) false (t_paused tp) (map (fun m => mkMsg (m_id m) (m_att m) 0%Z) (t_queue tp)) 0
+          (map restart_chan (filter (fun ch => negb (c_eph ch)) (t_chans tp))) 0 0 (t_lost tp).
+Definition restart (s : state) : state :=
+  mkState (map restart_topic (filter (fun tp => negb (t_eph tp)) (s_topics s))) [].
+
 
 (* ------------------------------------------------------------------ observables *)
 Definition depth (ch : chan) : N := N.of_nat (length (c_queue ch)).
